@@ -18,6 +18,8 @@ pub struct Tokenizer<'a> {
     pub chars: Iter<'a, u8>,
     in_header: bool,
     in_common: bool,
+    /// A data element has been read since the last program header
+    in_data: bool,
 }
 
 impl<'a> Tokenizer<'a> {
@@ -36,6 +38,7 @@ impl<'a> Tokenizer<'a> {
             chars: iter,
             in_header: true,
             in_common: false,
+            in_data: false,
         }
     }
 
@@ -401,6 +404,7 @@ impl<'a> Iterator for Tokenizer<'a> {
                 util::skip_ws(&mut self.chars);
                 self.in_header = true;
                 self.in_common = false;
+                self.in_data = false;
                 Some(Ok(Token::ProgramMessageUnitSeparator))
             }
             /* Message terminator */
@@ -419,6 +423,9 @@ impl<'a> Iterator for Tokenizer<'a> {
                 self.chars.next();
                 if self.in_header {
                     Some(Err(ErrorCode::HeaderSeparatorError))
+                } else if !self.in_data {
+                    // A data separator must follow a data element (`CMD ,1` is not allowed)
+                    Some(Err(ErrorCode::SyntaxError))
                 } else {
                     util::skip_ws(&mut self.chars);
                     if let Some(c) = self.chars.clone().next() {
@@ -491,6 +498,11 @@ impl<'a> Iterator for Tokenizer<'a> {
         };
         //extern crate std;
         //std::dbg!(ret);
+        if let Some(Ok(tok)) = &ret {
+            if tok.is_data() {
+                self.in_data = true;
+            }
+        }
         ret
     }
 }
